@@ -201,6 +201,10 @@ TARGETS = [
     dict(fn='osmium::detail::parse_timestamp', sig='(const char **)', cond=0, and_left=1, name='parse_timestamp_cond_pattern'),
     dict(fn='osmium::io::detail::utf8_sequence_length'),
     dict(fn='osmium::io::detail::next_utf8_codepoint'),
+    # ---- phase 4: output strings (`std::string&` / back_insert_iterator parameters that are only appended to) ----
+    dict(fn='osmium::io::detail::append_codepoint_as_utf8', sig='back_insert_iterator'),
+    dict(fn='osmium::io::detail::opl_parse_escaped'),
+    dict(fn='osmium::io::detail::opl_parse_string'),
 ]
 
 
